@@ -65,6 +65,12 @@ CHECKS["C19"] = (
     "Only the interleavings observed are covered (hundreds of thousands of interner lock handovers per quick run); independent diagnostics are compared as a multiset because their order follows per-thread hash seeds even without concurrency; jobs that kill a process alone make the schedule inconclusive.",
     "DESIGN.md §3 C19",
 )
+CHECKS["C17"] = (
+    "model-based oracle over real compilations and runs: random inline module trees in which every definition returns its own constant, every admissible reference (absolute / relative path, bare name, use, use {..}, use *, re-export, each under a local binding) placed alone in a probe function, judged by an independent conservative resolver model",
+    "Each case is a generated module tree (<= 9 modules, nesting <= 3, random pub on functions and modules, namesakes in several modules, use / use {..} / use * / pub use chains with absolute and relative paths, module-level lets) plus up to 28 references drawn from all references the tree admits, spread over the model's classes (route x what is private x referencing position). The program is compiled by the real compiler through the CLI's code path and run on the VM (1 case in 4 also on WASM): a reference the model calls private-from-outside must produce diagnostics; a legal one must be accepted and evaluate to the constant of the definition its path denotes; a local let / parameter / lambda parameter must win over an imported namesake. Verdicts come from single-reference programs (must-accept references are first tried in batches of 8, one output channel each) and every witness is shrunk. Sampled, not exhaustive.",
+    "Trusts the ~300-line resolver model (visibility = declared pub; outside = neither in the member's module nor nested in it, the rule convert_qualified_names.rs documents); the model abstains (records the outcome, no verdict) wherever the statement does not fix the answer: a first segment naming both a top-level and a child module, a short name imported twice or by two mechanisms or by any `use` in another module (scope of `use`), import vs top-level function, glob re-exports, enclosing-module vs top-level namesakes, text order; acceptance is not demanded for bare names found in enclosing modules, relative paths to re-exports and relative glob paths. Four known findings (module visibility ignored, re-export of a private function, module-level let is global, top-level function shadows a module's own function) are matched by exact signature (scope=sig).",
+    "DESIGN.md §3 C17",
+)
 PENDING = {}
 
 def main():
